@@ -39,7 +39,7 @@ def _hist_nontrivial(w):
 
 
 def _hist_plan(tier, seed):
-    cfgs = [dict(kind='bdd', nmax=4, init_vars=3), dict(kind='bdd', nmax=5, init_vars=4, reordering=True, reorder_starts=4), dict(kind='autoref', nmax=4, init_vars=4, reordering=True, reorder_starts=8), dict(kind='bdd', nmax=5, init_vars=4), dict(kind='autoref', nmax=4, init_vars=3), dict(kind='bdd', nmax=10, init_vars=9, semantic=False), dict(kind='bdd', nmax=12, init_vars=11, semantic=False), dict(kind='autoref', nmax=10, init_vars=10, semantic=False)]
+    cfgs = [dict(kind='bdd', nmax=4, init_vars=3), dict(kind='bdd', nmax=5, init_vars=4, reordering=True, reorder_starts=4), dict(kind='autoref', nmax=4, init_vars=4, reordering=True, reorder_starts=8), dict(kind='bdd', nmax=5, init_vars=4), dict(kind='autoref', nmax=4, init_vars=3), dict(kind='bdd', nmax=10, init_vars=9, semantic=False), dict(kind='bdd', nmax=12, init_vars=11, semantic=False), dict(kind='bdd', nmax=14, init_vars=13, semantic=False), dict(kind='autoref', nmax=10, init_vars=10, semantic=False)]
     return [dict(kind='history', seed=seed * 1000 + 500 + s, cfgs=cfgs,
                  examples=1200 if tier == 'thorough' else 300,
                  min_len=10, max_len=45)
